@@ -21,6 +21,11 @@ Theorem C11_raffle_bounds : forall capF capI st, rinv capF capI st ->
 Proof. exact rinv_bounds. Qed.
 Print Assumptions C11_raffle_bounds.
 
+(** simultaneous requests for ONE job id, served in any order, from any state: at most one gets a ticket *)
+Theorem C11_one_ticket_per_id : forall id reqs st, (grant_count id reqs st <= 1)%nat.
+Proof. exact grant_at_most_one. Qed.
+Print Assumptions C11_one_ticket_per_id.
+
 (** a log of run starts / ends that the model accepts has no overlapping runs of one id and never
     exceeds a pool (this is what the correspondence check establishes for the observed logs) *)
 Theorem C11_replay_spec : forall capF capI log st st',
@@ -89,9 +94,10 @@ Print Assumptions C11_refuted_panic_kills.
 Theorem C11_agree_implies_spec : forall c, 0 <= t_capF c -> 0 <= t_capI c ->
   agree jfixed c = true -> spec_ok c = true.
 Proof.
-  intros c HF HI H. destruct (t_iscfg c) eqn:Hk.
-  - exact (agree_fixed_spec_cfg c Hk H).
-  - exact (agree_fixed_spec_raffle jfixed c Hk HF HI H).
+  intros c HF HI H. destruct (t_barrier c) eqn:Hb; [exact (agree_spec_barrier jfixed c Hb H)|].
+  destruct (t_iscfg c) eqn:Hk.
+  - exact (agree_fixed_spec_cfg c Hb Hk H).
+  - exact (agree_fixed_spec_raffle jfixed c Hb Hk HF HI H).
 Qed.
 Print Assumptions C11_agree_implies_spec.
 
